@@ -91,7 +91,7 @@ D_SnapshotKept_ == (IsStep /\ stopped /\ snapSeen) => HasSnap(cur)
 (* C05: once failures stop the replica catches up: the second of two consecutive fault-free acknowledged-sync requests succeeds *)
 D_CatchesUp_ ==
   (IsStep /\ l > t0 + 1 /\ cur.op = "SyncWait" /\ Log[l - 1].op = "SyncWait" /\ cur.faultsLeft = 0 /\ Log[l - 1].faultsLeft = 0
-          /\ Log[l - 2].faultsLeft = 0 /\ cur.res # "skip") => cur.ack
+          /\ Log[l - 2].faultsLeft = 0 /\ cur.res \notin {"skip", "timeout"} /\ Log[l - 1].res \notin {"skip", "timeout"}) => cur.ack
 
 (* C14: with the daemon running (its syncs, checkpoints, snapshots, compactions, close) the application-visible content is  *)
 (* what the same application history yields without litestream (judged while no application operation was refused as busy) *)
